@@ -717,6 +717,105 @@ func dddDigits(c *Ctx, r *Report, rule string) {
 					have[k] = true
 				}
 			}
+			// the loop form: for i := 0; i < K; i++ { if !isDigit(s[i]) { return false } }: after the loop has run
+			// to its end (i < K false) every offset below K has passed the test
+			for _, f := range factsAt(fn, blk) {
+				bin, ok := f.Atom.(*ssa.BinOp)
+				if !ok || bin.Op != token.LSS || f.Holds {
+					continue
+				}
+				K, isK := constIntOf(bin.Y)
+				phi, isPhi := bin.X.(*ssa.Phi)
+				if !isK || !isPhi || len(phi.Edges) != 2 {
+					continue
+				}
+				var inc *ssa.BinOp
+				zero := false
+				for _, e := range phi.Edges {
+					if k0, ok := constIntOf(e); ok && k0 == 0 {
+						zero = true
+					}
+					if b2, ok := e.(*ssa.BinOp); ok && b2.Op == token.ADD && b2.X == ssa.Value(phi) {
+						if k1, ok := constIntOf(b2.Y); ok && k1 == 1 {
+							inc = b2
+						}
+					}
+				}
+				if !zero || inc == nil {
+					continue
+				}
+				// the test of s[i] runs in every iteration and its failure returns false
+				allInstrs(fn, func(in ssa.Instruction) {
+					call, ok := in.(*ssa.Call)
+					if !ok || calleeNameSSA(&call.Call) != "isDigit" || len(call.Call.Args) != 1 {
+						return
+					}
+					idxIsPhi := false
+					switch t := call.Call.Args[0].(type) {
+					case *ssa.UnOp:
+						if ia, ok := t.X.(*ssa.IndexAddr); ok && ia.X == ssa.Value(s) && ia.Index == ssa.Value(phi) {
+							idxIsPhi = true
+						}
+					case *ssa.Lookup:
+						idxIsPhi = t.X == ssa.Value(s) && t.Index == ssa.Value(phi)
+					case *ssa.Index:
+						idxIsPhi = t.X == ssa.Value(s) && t.Index == ssa.Value(phi)
+					}
+					if !idxIsPhi || !(call.Block() == inc.Block() || call.Block().Dominates(inc.Block())) {
+						return
+					}
+					iff, ok := call.Block().Instrs[len(call.Block().Instrs)-1].(*ssa.If)
+					if !ok {
+						return
+					}
+					// which successor is taken when isDigit is false
+					var failSucc *ssa.BasicBlock
+					switch c2 := iff.Cond.(type) {
+					case *ssa.Call:
+						if c2 == call {
+							failSucc = call.Block().Succs[1]
+						}
+					case *ssa.UnOp:
+						if c2.Op == token.NOT && c2.X == ssa.Value(call) {
+							failSucc = call.Block().Succs[0]
+						}
+					}
+					if failSucc == nil {
+						return
+					}
+					for len(failSucc.Instrs) == 1 && len(failSucc.Succs) == 1 {
+						failSucc = failSucc.Succs[0]
+					}
+					okFail := false
+					if ret, ok := failSucc.Instrs[len(failSucc.Instrs)-1].(*ssa.Return); ok && len(failSucc.Instrs) == 1 {
+						if kb, isB := constBool(ret.Results[0]); isB && !kb {
+							okFail = true
+						}
+						if ph, isPh := ret.Results[0].(*ssa.Phi); isPh {
+							_ = ph
+						}
+					}
+					// a shared return block with a phi: the edge from the failing test carries false
+					if !okFail {
+						if ret, ok := failSucc.Instrs[len(failSucc.Instrs)-1].(*ssa.Return); ok {
+							if ph, isPh := ret.Results[0].(*ssa.Phi); isPh && ph.Block() == failSucc {
+								for i, pr := range failSucc.Preds {
+									if pr == call.Block() || (len(pr.Instrs) == 1 && len(pr.Preds) == 1 && pr.Preds[0] == call.Block()) {
+										if kb, isB := constBool(ph.Edges[i]); isB && !kb {
+											okFail = true
+										}
+									}
+								}
+							}
+						}
+					}
+					if okFail {
+						for k := int64(0); k < K; k++ {
+							have[k] = true
+						}
+					}
+				})
+			}
 			for _, k := range []int64{0, 1, 2} {
 				if !have[k] {
 					bad = append(bad, fmt.Sprintf("yes is possible without a digit at offset %d", k))
@@ -969,6 +1068,7 @@ func tablesInStep(c *Ctx, r *Report, rule string) {
 			continue
 		}
 		ops := map[string]map[*ssa.BasicBlock]bool{} // "update TypeToString" -> blocks
+		var inserts []*ssa.MapUpdate
 		tableOf := func(v ssa.Value) string {
 			ld, ok := v.(*ssa.UnOp)
 			if !ok {
@@ -995,6 +1095,7 @@ func tablesInStep(c *Ctx, r *Report, rule string) {
 			case *ssa.MapUpdate:
 				if tb := tableOf(t.Map); tb != "" {
 					add("insert", tb, t.Block())
+					inserts = append(inserts, t)
 				}
 			case *ssa.Call:
 				if calleeNameSSA(&t.Call) == "builtin.delete" {
@@ -1029,5 +1130,60 @@ func tablesInStep(c *Ctx, r *Report, rule string) {
 	}
 	if n == 0 {
 		r.undecided(rule, "tables", "", "no function changes the mnemonic tables")
+	}
+}
+
+// tablesMirrored: where a function enters a pair into TypeToString and into StringToType, the mnemonic that is the
+// value of the one is the key of the other and the code likewise (the same SSA values): the printer's spelling is
+// the parser's.
+func tablesMirrored(c *Ctx, r *Report, rule string) {
+	r.rule(rule, 1, "a pair entered into TypeToString / StringToType (ClassToString / StringToClass) uses the same mnemonic value and the same code value in both")
+	pairs := map[string]string{"TypeToString": "StringToType", "ClassToString": "StringToClass"}
+	tableOf := func(v ssa.Value) string {
+		ld, ok := v.(*ssa.UnOp)
+		if !ok {
+			return ""
+		}
+		g, ok := ld.X.(*ssa.Global)
+		if !ok {
+			return ""
+		}
+		return g.Name()
+	}
+	n := 0
+	for _, fn := range c.allFuncs() {
+		if fn.Synthetic != "" {
+			continue
+		}
+		var ups []*ssa.MapUpdate
+		allInstrs(fn, func(in ssa.Instruction) {
+			if mu, ok := in.(*ssa.MapUpdate); ok {
+				ups = append(ups, mu)
+			}
+		})
+		for _, a := range ups {
+			rev, ok := pairs[tableOf(a.Map)]
+			if !ok {
+				continue
+			}
+			for _, b := range ups {
+				if tableOf(b.Map) != rev || b.Block() != a.Block() {
+					continue
+				}
+				n++
+				r.fn(fnDisplay(fn))
+				var bad []string
+				if a.Value != b.Key {
+					bad = append(bad, fmt.Sprintf("%s[code] = %s but %s[%s] = code", tableOf(a.Map), describeValue(a.Value), rev, describeValue(b.Key)))
+				}
+				if a.Key != b.Value {
+					bad = append(bad, fmt.Sprintf("the code stored in %s is %s, the key of %s is %s", rev, describeValue(b.Value), tableOf(a.Map), describeValue(a.Key)))
+				}
+				r.check(len(bad) == 0, rule, fnDisplay(fn)+":"+tableOf(a.Map), c.pos(a.Pos()), "same mnemonic, same code", "%s: the mnemonic the printer writes is not the one the parser looks up, so a record of that type (and every bitmap or type-covered field naming it) prints text the parser refuses", strings.Join(bad, "; "))
+			}
+		}
+	}
+	if n == 0 {
+		r.undecided(rule, "tables", "", "no function enters a pair into both tables")
 	}
 }
